@@ -154,7 +154,7 @@ PROPS['C03'] = dict(
 )
 
 PROPS['C16'] = dict(
-    id='C16', modules=['CollectionModel.Props.C16'], key=lambda l: (l.get('k'), l.get('op'), l.get('out'), size_class(len(l.get('ps', l.get('vs', [])))), size_class(len(l.get('qs', l.get('ws', [])))), l.get('alias', ''), size_class(len(l.get('post', [])))),
+    id='C16', modules=['CollectionModel.Props.C16', 'CollectionModel.Tie.LoopsList'], key=lambda l: (l.get('k'), l.get('op'), l.get('out'), size_class(len(l.get('ps', l.get('vs', [])))), size_class(len(l.get('qs', l.get('ws', [])))), l.get('alias', ''), size_class(len(l.get('post', [])))),
     nontrivial=lambda l: len(l.get('ps', l.get('vs', []))) + len(l.get('qs', l.get('ws', []))) > 0,
     rule="cases = one Merge / Extract / Concatenate call on freshly built operands with purity probes (operands re-read after "
          "the call, result and operands mutated afterwards and the other side re-read): Merge over pairs of catalogs whose keys "
